@@ -25,7 +25,7 @@ RULE = ("seeded random networks in which most 2W transformers (and some 3W trans
         "non-trivial = converged and >= 2 tabular transformers at off-neutral positions; distinct = digest of inputs")
 ASSUMPTIONS = ["direct entry: tapped side vn_kv *= voltage_ratio, shift_degree += (+/-)angle_deg (sign by tap side), vk/vkr from the row, "
                "tap changer disabled; loading_percent is not compared (its rating base vn_hv_kv changes with the direct entry)",
-               "comparison tolerance 1e-7 p.u. / 1e-6 deg / 1e-6 MVA"]
+               "comparison tolerance 1e-7 p.u. / 1e-6 deg / (1e-6 + 20 * tolerance_mva * sn_mva) MVA"]
 
 
 def direct_copy(net):
@@ -167,7 +167,9 @@ def run_case(seed, tier, case_no):
                          ("line", ["p_from_mw", "q_from_mvar"])):
             if len(net[el]):
                 x, y = net["res_" + el][cols].values.astype(float), direct["res_" + el][cols].values.astype(float)
-                bad = ~((np.abs(x - y) <= 1e-6 + 1e-8 * np.abs(x)) | (np.isnan(x) & np.isnan(y)))
+                # both runs stop at a mismatch of tolerance_mva * sn_mva MVA per bus (F34): flows agree within a multiple of that
+                slack_mva = 20 * opts.get("tolerance_mva", 1e-8) * float(net.sn_mva)
+                bad = ~((np.abs(x - y) <= 1e-6 + slack_mva + 1e-8 * np.abs(x)) | (np.isnan(x) & np.isnan(y)))
                 if bad.any():
                     r, c = np.argwhere(bad)[0]
                     viols.append(common.viol("res_%s.%s[%s]: tabular %.9g, direct entry %.9g" % (el, cols[c], net[el].index[r], x[r, c], y[r, c]), options=opts))
